@@ -36,7 +36,7 @@ def fold(v1, t1, v2, t2, op):
     return (made[0]['value'] if made else None), seen, dt
 
 
-HOSTILE = ['a" * 3 + "', "a' * 3 + '", 'x" if 0 else "PWN', '7*6', '2*3', '9**2', '-1+5', '4 if 0 else 5', 'ab\\', 'a\nb', '" + "', "plain", '1e3', '0x10', '12', '" or "x']
+HOSTILE = ['"x" * 3 + "y"', "'' or 7*6 or ''", '"quoted"', 'a" * 3 + "', "a' * 3 + '", 'x" if 0 else "PWN', '7*6', '2*3', '9**2', '-1+5', '4 if 0 else 5', 'ab\\', 'a\nb', '" + "', "plain", '1e3', '0x10', '12', '" or "x']
 
 
 def check(v1, v2, op):
